@@ -28,10 +28,10 @@ import (
 const (
 	goBin    = "go1.26.8"
 	goRoot   = "/opt/veriftools/go1.26.8"
-	verifDir = "/verif"
 )
 
 var (
+	verifDir  = "/verif"
 	repoDir   = "/repo"
 	golibDir  = "/root/go/pkg/mod/github.com/fatedier/golib@v0.5.1"
 	workers   = runtime.NumCPU()
